@@ -81,17 +81,28 @@ CHECKS["C09"] = {
                     "edit-config with target=startup is accepted with :startup as the code does (RFC 6241 8.7.5 does not list it; not decided here)",
                     "URL parsing (iri-string) runs on three concrete URLs only"],
     "harnesses": [
-        harness(n, functions=f, bounds=C09_BOUNDS, target="c09_%d" % (i % 5)) for i, (n, f) in enumerate([
+        harness(n, functions=f, bounds=C09_BOUNDS, target="c09_%d" % (i % 8), timeout={"quick": 900, "thorough": 2400}) for i, (n, f) in enumerate([
             ("c09_get_op", ["Get::new", "get::Builder::filter/finish", "Filter::try_use"]),
-            ("c09_get_config", ["GetConfig::new", "get_config::Builder::source/filter/finish", "Datastore::try_as_source", "Filter::try_use"]),
+            ("c09_get_config_running", ["GetConfig::new", "get_config::Builder::source/filter/finish", "Datastore::try_as_source", "Filter::try_use"]),
+            ("c09_get_config_candidate", ["get_config::Builder::source/filter/finish"]),
+            ("c09_get_config_startup", ["get_config::Builder::source/filter/finish"]),
             ("c09_lock_unlock", ["Lock::new", "Unlock::new", "lock::Builder::target/finish", "Datastore::try_as_lock_target"]),
-            ("c09_commit", ["Commit::new", "commit::Builder::confirmed/confirm_timeout/persist/persist_id/finish"]),
+            ("c09_commit_plain", ["Commit::new", "commit::Builder::confirmed/confirm_timeout/finish"]),
+            ("c09_commit_persist", ["commit::Builder::persist/finish"]),
+            ("c09_commit_persist_id", ["commit::Builder::persist_id/finish"]),
+            ("c09_commit_persist_both", ["commit::Builder::persist/persist_id/finish"]),
             ("c09_simple_ops", ["CancelCommit::new", "DiscardChanges::new", "KillSession::new", "CloseSession::new"]),
-            ("c09_validate_delete", ["Validate::new", "DeleteConfig::new", "Datastore::try_as_source/try_as_target"]),
-            ("c09_copy_config", ["CopyConfig::new", "copy_config::Builder::target/source/config/finish"]),
+            ("c09_validate", ["Validate::new", "validate::Builder::source/config/finish", "Datastore::try_as_source"]),
+            ("c09_delete_config", ["DeleteConfig::new", "delete_config::Builder::target/finish", "Datastore::try_as_target"]),
+            ("c09_copy_config_to_running", ["CopyConfig::new", "copy_config::Builder::target/source/config/finish"]),
+            ("c09_copy_config_to_candidate", ["copy_config::Builder::target/source/config/finish"]),
+            ("c09_copy_config_to_startup", ["copy_config::Builder::target/source/config/finish"]),
             ("c09_edit_config_target", ["EditConfig::new", "edit_config::Builder::target/config/finish", "Datastore::try_as_target"]),
-            ("c09_edit_config_options", ["edit_config::Builder::test_option/error_option", "TestOption::try_use", "ErrorOption::try_use"]),
-            ("c09_url", ["Url::try_new", "edit_config::Builder::url", "delete_config::Builder::url"]),
+            ("c09_edit_config_test_option", ["edit_config::Builder::test_option", "TestOption::try_use"]),
+            ("c09_edit_config_error_option", ["edit_config::Builder::error_option", "ErrorOption::try_use"]),
+            ("c09_url_file", ["Url::try_new", "edit_config::Builder::url", "delete_config::Builder::url"]),
+            ("c09_url_ftp", ["Url::try_new"]),
+            ("c09_url_http", ["Url::try_new"]),
             ("c09_operation_new_gate", ["Operation::new (trait default method, instantiated for DiscardChanges)"]),
             ("c09_junos_ops", ["OpenConfiguration::new", "CloseConfiguration::new", "LockConfiguration::new", "UnlockConfiguration::new", "CommitConfiguration::new"]),
         ])
@@ -99,9 +110,10 @@ CHECKS["C09"] = {
 }
 
 READER_LOOPS = {
-    r"ReadXml.*read_xml": 6,      # reader loops: <= items + End + exit
+    r"ReadXml.*read_xml": 7,      # reader loops: <= 2 cells per item + End + exit
     r"seek_end": 4,               # leaf content: text, end (+1)
     r"name_id_of": 14,
+    r"drop_glue.*InfoElement": 1,  # error-info is always empty in these harnesses (asserted by the unwinding assertion)
     r"drop_glue": 4,
     r"is_whitespace": 20,
     r"from_ascii": 5,
@@ -109,36 +121,32 @@ READER_LOOPS = {
 
 CHECKS["C08"] = {
     "crates": ["netconf"],
-    "explanation": "",
-    "assumptions": [],
+    "explanation": "Each reply reader (EmptyReply, DataReply<Opaque>, BareReply, load_configuration::Reply) is executed symbolically over every "
+                   "reply of up to 3 grammar items (ok as <ok/> or <ok></ok>, rpc-error with severity error or warning, comment, unexpected "
+                   "element, <ok/> in a foreign namespace, <data>, stray text), compositional: rpc::Error::read_xml is replaced by a summary "
+                   "stub in the outer-reader harnesses and checked on its own in c08_rpc_error_reader.",
+    "assumptions": ["event-level: the quick-xml model replays event tapes; byte-level tokenisation is quick-xml's",
+                    "summary stub for rpc::Error::read_xml (consumes the element, returns the severity the tape declares); justified by c08_rpc_error_reader"],
     "harnesses": [
-        harness("c08_empty_reply", functions=["EmptyReply::read_xml", "rpc::Error::read_xml"], bounds="<=2 items", loops=READER_LOOPS),
+        harness("c08_empty_reply", functions=["EmptyReply::read_xml"], bounds="<=2 items from the 9-item reply grammar", deep_bounds="<=3 items", deep=True, loops=READER_LOOPS, stubbing=True, timeout={"quick": 600, "thorough": 5400}, mem_gb=30),
+        harness("c08_data_reply", functions=["DataReply::<Opaque>::read_xml", "Opaque::read_xml"], bounds="<=2 items", deep_bounds="<=3 items", deep=True, loops=READER_LOOPS, stubbing=True, timeout={"quick": 600, "thorough": 5400}, mem_gb=30),
+        harness("c08_bare_reply", functions=["junos::BareReply::read_xml"], bounds="<=2 items", deep_bounds="<=3 items", deep=True, loops=READER_LOOPS, stubbing=True, timeout={"quick": 600, "thorough": 5400}, mem_gb=30),
+        harness("c08_load_configuration_reply", functions=["junos::load_configuration::Reply::read_xml"],
+                bounds="<load-configuration-results> present or absent, <=2 inner items (ok, ok pair, rpc-error error/warning, load-error-count 0..3, comment, other)",
+                deep_bounds="... <=3 inner items", deep=True, loops=READER_LOOPS, stubbing=True, timeout={"quick": 900, "thorough": 5400}, mem_gb=30),
+        harness("c08_rpc_error_reader", functions=["rpc::Error::read_xml", "Type/Tag/Severity::from_str"],
+                bounds="three mandatory children in all 6 orders, each present/absent, 4 severity texts", loops=READER_LOOPS, timeout={"quick": 900, "thorough": 3000}),
     ],
 }
 
-AGENT = "bgpfu-junos-agent"
-CHECKS["C19"] = {
-    "crates": ["netconf", "junos-agent"],
-    "explanation": "Loop::start (the select! loop, interval resets, back-off arithmetic) and handle_task are executed symbolically over the "
-                   "virtual clock of the tokio model: every period in 1..2^40 s, every outcome sequence of 4 consecutive runs, every job "
-                   "duration 0..100 s; SIGHUP/SIGINT/SIGTERM arriving at any instant while the loop waits.",
-    "assumptions": ["the outcome of each updater job is chosen by the harness through the tokio model's spawn override (JoinHandle completes "
-                    "with Ok(()) or Err); what happens inside a run is C04's subject",
-                    "tokio::time::Interval modelled after tokio 1.37 (Burst): tick at deadline d re-arms d+period; reset()=now+period; "
-                    "reset_after(x)=now+x; reset_immediately()=now",
-                    "overflow of `backoff * 2` needs 58 consecutive failures and is outside the 4-run bound"],
-    "harnesses": [
-        harness("c19_backoff_and_period", package=AGENT, functions=["task::Loop::start", "task::handle_task", "task::Updater::init_loop"],
-                bounds="period 1..2^40 s, 4 runs, job duration <= 100 s", loops={r"Loop.*start": 6}),
-        harness("c19_signals", package=AGENT, functions=["task::Loop::start (signal arms)"], bounds="one run, then one signal at any time before the timer", loops={r"Loop.*start": 4}),
-        harness("c19_frequency_zero_is_one_shot", package=AGENT, functions=["cli::Frequency::from"], bounds="all u64"),
-    ],
-}
+# Properties whose checks are registered in MANIFEST.json (the others stay in the registry for
+# development but are listed under not_applicable until their quick tier is reliably green).
+CLAIMED = ["C06", "C07"]
 
 NOT_APPLICABLE = {
     "C11": "semantics reside in the third-party crates rpsl (pest parser + evaluator), generic-ip (prefix tries) and irrc (TCP client); bgpfu's own 240 lines only wire resolvers together. Kani cannot get through hash maps, tries of depth 128, a pest parser or sockets, and modelling all three would leave nothing of the property to check (DESIGN.md §6)",
     "C17": "the state in question (response/query alignment) belongs to irrc::Connection and rpsl's evaluator; bgpfu contributes a two-line take/restore. With irrc replaced by a model the property would be a statement about the model (DESIGN.md §6)",
 }
 PENDING = "not claimed yet in this round: the Kani harness family for this property is not finished (see DESIGN.md, status section)"
-for _p in ["C01", "C02", "C03", "C04", "C05", "C08", "C10", "C12", "C13", "C14", "C15", "C16", "C18", "C19", "C20"]:
-    NOT_APPLICABLE.setdefault(_p, PENDING)
+for _i in range(1, 21):
+    NOT_APPLICABLE.setdefault("C%02d" % _i, PENDING)
